@@ -39,9 +39,71 @@ class Skip(Exception):
 
 # ------------------------------------------------------------------------------------------ asm over lists
 
+def _exec_product(rec):
+    """asm(form, [ub_0, ...], [vb_0, ...]) with two lists (possibly of different length) and an integrand that uses the
+    block index w.idx = (trial position, test position) ASYMMETRICALLY: coefficient tables cu[idx[0]] * cv[idx[1]] and
+    the jump of the trial function only.  Reference: the block-wise assemblies form.assemble(ub_i, vb_j, idx=(i, j))."""
+    from skfem import BilinearForm, Functional, asm
+    from skfem.helpers import jump
+    kind = rec['mesh']['kind']
+
+    def run():
+        mesh = fem.make_mesh(rec['mesh'])
+        ul = [fem.make_basis(mesh, kind, b) for b in rec['ulist']]
+        vl = [fem.make_basis(mesh, kind, b) for b in rec['vlist']]
+        accu, accv = fem.accessors(ul[0].basis[0]), fem.accessors(vl[0].basis[0])
+        pis = [fem.basis_pi(b, accu) for b in ul] + [fem.basis_pi(b, accv) for b in vl]
+        if any(p is None for p in pis):
+            raise Skip()
+        su = max(p['sphi'] for p in pis[:len(ul)])
+        sv = max(p['sphi'] for p in pis[len(ul):])
+        sdx = max(p['sdx'] for p in pis)
+        cu, cv, usejump = rec['cu'], rec['cv'], rec['usejump']
+        a, b = rec['comps']
+
+        def integrand(U, V, w):
+            uu = fem.comp(U, accu[a])
+            if usejump:
+                uu = jump(w, uu)                      # jump of the trial function only: (-1) ** idx[0]
+            return cu[w.idx[0]] * cv[w.idx[1]] * uu * fem.comp(V, accv[b])
+        nfu = len(ul[0].basis[0])
+        fb = BilinearForm(lambda *args: integrand(args[:nfu], args[nfu:-1], args[-1]))
+        fp = Functional(lambda w: integrand(w['uh'], w['vh'], w))
+        u = np.array(rec['u'], dtype=np.float64)
+        v = np.array(rec['v'], dtype=np.float64)
+        S2 = su * sv * sdx
+        A_L = asm(fb, ul, vl)
+        ok = True
+        parts, pparts = [], []
+        for i, j in itertools.product(range(len(ul)), range(len(vl))):
+            M, o = _mat(fb.assemble(ul[i], vl[j], idx=(i, j)), S2)
+            ok &= o
+            parts.append(M)
+            p = fp.assemble(ul[i], uh=ul[i].interpolate(u), vh=vl[j].interpolate(v), idx=(i, j))
+            pi = _ints(p, S2) if np.ndim(p) == 0 else None
+            ok &= pi is not None
+            pparts.append(int(pi or 0))
+        AL, o = _mat(A_L, S2)
+        ok &= o
+        ev = {'a': 'List', 'err': '', 'u': [int(t) for t in rec['u']], 'v': [int(t) for t in rec['v']], 'hasp': 2,
+              'A': AL, 'Aparts': parts, 'b': [], 'bparts': [[]], 's': 0, 'sparts': [0], 'p': 0, 'pparts': pparts,
+              'q': 0, 'qparts': [0], 'haswhole': 0, 'wA': {'shape': [0, 0], 'trip': []}, 'wb': [], 'ws': 0}
+        fem.guard_sum([t[2] for t in AL['trip']], max(map(abs, rec['u']), default=0) * max(map(abs, rec['v']), default=0))
+        ev['exact'] = 1 if ok else 0
+        return ev
+    ev, err = guarded(run, 90)
+    if err in ('Skip', 'TooLarge'):
+        return []
+    if err:
+        ev = {'a': 'List', 'err': err}
+    return [ev]
+
+
 def exec_list(rec):
     from skfem import BilinearForm, LinearForm, Functional, asm
     from skfem.helpers import jump
+    if rec['mode'] == 'product':
+        return _exec_product(rec)
     kind = rec['mesh']['kind']
 
     def run():
@@ -175,9 +237,43 @@ def _split_parts(rng, items, nparts):
     return [[int(items[k]) for k in np.nonzero(lab == p)[0]] for p in range(nparts)]
 
 
+def _gen_product(rng, kind):
+    mrec = fem.lattice_mesh(kind, rng, shear=False)
+    mesh = fem.make_mesh(mrec)
+    interior = bool(rng.integers(0, 4))
+    fac = fem.axis_parallel_facets(mesh, 'interior' if interior else 'boundary')
+    if not fac:
+        return None
+    k = int(rng.integers(1, min(len(fac), 3) + 1))
+    facets = [int(fac[j]) for j in rng.permutation(len(fac))[:k]]
+    quad = fem.dyadic_quadrature(fem.FACET_REF[kind], int(rng.integers(1, 4)), rng)
+    es = LIST_ELEMS[kind]
+    eu = es[int(rng.integers(0, len(es)))]
+    ev_ = es[int(rng.integers(0, len(es)))] if rng.integers(0, 2) else eu
+    nu, nv = int(rng.integers(2, 4)), int(rng.integers(2, 4))          # lists of different lengths as well (2 x 3, 3 x 2)
+
+    def blist(spec, n):
+        return [{'type': 'ifacet' if interior else 'facet', 'elem': spec, 'facets': facets, 'quad': quad,
+                 'side': int(j % 2) if interior else 0} for j in range(n)]
+    rec = {'driver': 'list', 'mode': 'product', 'mesh': mrec, 'ulist': blist(eu, nu), 'vlist': blist(ev_, nv),
+           'cu': [int(x) for x in rng.permutation([2, -1, 3])[:nu]], 'cv': [int(x) for x in rng.permutation([1, 5, -2])[:nv]],
+           'usejump': int(rng.integers(0, 2))}
+    try:
+        bu, bv = fem.make_basis(mesh, kind, rec['ulist'][0]), fem.make_basis(mesh, kind, rec['vlist'][0])
+    except Exception:
+        return None
+    if bu.Nbfun * bv.Nbfun * bu.nelems > 600 or max(bu.N, bv.N) > 60:
+        return None
+    rec['comps'] = [int(rng.integers(0, len(fem.accessors(bu.basis[0])))), int(rng.integers(0, len(fem.accessors(bv.basis[0]))))]
+    rec['u'], rec['v'] = _ivec(rng, bu.N), _ivec(rng, bv.N)
+    return rec, {'kind': kind, 'btype': f'list-product-{nu}x{nv}', 'eu': fem.elem_name(eu), 'ev': fem.elem_name(ev_), 'tier': 'exact'}
+
+
 def gen_list(rng):
     kind = str(rng.choice(['line', 'tri', 'tri', 'quad', 'quad', 'tet', 'hex']))
-    mode = str(rng.choice(['partition', 'partition', 'bparts', 'sides'])) if kind != 'line' else 'partition'
+    mode = str(rng.choice(['partition', 'partition', 'bparts', 'sides', 'product', 'product'])) if kind != 'line' else 'partition'
+    if mode == 'product':
+        return _gen_product(rng, kind)
     mrec = fem.lattice_mesh(kind, rng, shear=(mode == 'partition'))
     mesh = fem.make_mesh(mrec)
     es = LIST_ELEMS[kind]
